@@ -9,7 +9,7 @@ use crate::alphabet::{canon, AOp, Alphabet};
 use crate::ecrash::{self, COp};
 use crate::eseq::{rebuild_node, Base, Node, SeqParams, Worker};
 use crate::model::{Config, Model};
-use crate::sut::{read_dir_image, write_dir_image, DirImage, Scratch, SymSut, SymTab, DB_FILE, SQL_HTTP, SQL_LIB, SQL_LIB_REOPEN};
+use crate::sut::{client_uuid, read_dir_image, write_dir_image, DirImage, Scratch, SymSut, SymTab, DB_FILE, SQL_HTTP, SQL_LIB, SQL_LIB_REOPEN};
 use crate::vfs::LogEntry;
 use serde_json::{json, Value};
 use std::collections::HashSet;
@@ -243,6 +243,118 @@ pub fn generate(out: &Path) -> Result<(), String> {
     Ok(())
 }
 
+/// A directory as the pinned release could leave it and no sequential history can: the first
+/// two uploads of a new client overlapped (defect F1 of that release: its handler created the
+/// client in a transaction of its own with INSERT OR REPLACE, so the second racer reset the
+/// latest pointer after the first upload had been stored) - two versions on the nil parent, both
+/// acknowledged, the second one latest. Written through the pinned tree's storage API with the
+/// transaction sequence its handler ran. Plus an ordinary client with a snapshot.
+pub fn generate_legacy_fork(out: &Path) -> Result<(), String> {
+    use taskchampion_sync_server_core::{Snapshot, Storage};
+    let n = std::fs::read_dir(out).map_err(|e| e.to_string())?.count();
+    let d = out.join(format!("raw-{n:04}"));
+    let scratch = Scratch::new("legacy-fork");
+    let dir = scratch.path().join("data");
+    std::fs::create_dir_all(&dir).map_err(|e| e.to_string())?;
+    let a = client_uuid(GEN_SEED, 0);
+    let b = client_uuid(GEN_SEED, 1);
+    let (v1, v2, b1, b2) = (crate::sut::det_uuid(GEN_SEED, 77, 1), crate::sut::det_uuid(GEN_SEED, 77, 2), crate::sut::det_uuid(GEN_SEED, 77, 3), crate::sut::det_uuid(GEN_SEED, 77, 4));
+    let e = |x: anyhow::Error| format!("{x:#}");
+    {
+        let st = taskchampion_sync_server_storage_sqlite::SqliteStorage::new(&dir).map_err(e)?;
+        // racer 1: add_version -> NoSuchClient; new_client + commit; retry add_version + commit
+        let mut t = st.txn(a).map_err(e)?;
+        t.new_client(Uuid::nil()).map_err(e)?;
+        t.commit().map_err(e)?;
+        drop(t);
+        let mut t = st.txn(a).map_err(e)?;
+        t.add_version(v1, Uuid::nil(), b"first racer".to_vec()).map_err(e)?;
+        t.commit().map_err(e)?;
+        drop(t);
+        // racer 2 had seen NoSuchClient before racer 1's new_client committed
+        let mut t = st.txn(a).map_err(e)?;
+        t.new_client(Uuid::nil()).map_err(e)?;
+        t.commit().map_err(e)?;
+        drop(t);
+        let mut t = st.txn(a).map_err(e)?;
+        t.add_version(v2, Uuid::nil(), b"second racer".to_vec()).map_err(e)?;
+        t.commit().map_err(e)?;
+        drop(t);
+        // an ordinary client next to it
+        let mut t = st.txn(b).map_err(e)?;
+        t.new_client(Uuid::nil()).map_err(e)?;
+        t.add_version(b1, Uuid::nil(), b"b-1".to_vec()).map_err(e)?;
+        t.add_version(b2, b1, b"b-2".to_vec()).map_err(e)?;
+        t.set_snapshot(Snapshot { version_id: b1, timestamp: chrono::Utc::now(), versions_since: 1 }, b"b-snapshot".to_vec()).map_err(e)?;
+        t.commit().map_err(e)?;
+    }
+    let img: DirImage = read_dir_image(&dir).into_iter().filter(|(k, _)| !k.ends_with("-shm")).collect();
+    write_dir_image(&d, &img);
+    let meta = json!({
+        "kind": "legacy-fork", "seed": GEN_SEED,
+        "description": "two overlapping first uploads of a new client, both acknowledged by the pinned release (its defect F1): two versions on the nil parent, the second one latest; plus an ordinary client with a snapshot",
+        "forked": {"client": a.to_string(), "latest": v2.to_string(), "versions": [[v1.to_string(), Uuid::nil().to_string(), "first racer"], [v2.to_string(), Uuid::nil().to_string(), "second racer"]]},
+        "ordinary": {"client": b.to_string(), "chain": [[b1.to_string(), Uuid::nil().to_string(), "b-1"], [b2.to_string(), b1.to_string(), "b-2"]], "snapshot": [b1.to_string(), "b-snapshot"]},
+    });
+    std::fs::write(d.join("meta.json"), serde_json::to_string_pretty(&meta).unwrap()).map_err(|e| e.to_string())?;
+    println!("corpus: legacy directory with forked first versions written to {}", d.display());
+    Ok(())
+}
+
+/// The legacy directory no sequential history produces: it must open, keep every stored row,
+/// serve both clients and take further versions.
+fn check_legacy_fork(name: &str, meta: &Value, files: &DirImage) -> Vec<(String, String)> {
+    let mut findings = vec![];
+    let scratch = Scratch::new("legacy-check");
+    let dir = scratch.path().join("data");
+    write_dir_image(&dir, files);
+    let cfg = Config { days: 14, versions: 100 };
+    let mut sut = match std::panic::catch_unwind(std::panic::AssertUnwindSafe(|| crate::sut::Sut::open_dir(SQL_LIB, cfg, &dir, None, std::sync::Arc::new(crate::wrap::NoProbe)))) {
+        Ok(Ok(s)) => s,
+        Ok(Err(e)) => return vec![("raw|not-served".into(), format!("{name} ({}): the database does not open: {e:#}", meta["description"].as_str().unwrap_or("")))],
+        Err(e) => return vec![("raw|not-served".into(), format!("{name}: opening the database panicked: {}", crate::sut::panic_msg(e)))],
+    };
+    let u = |v: &Value| Uuid::parse_str(v.as_str().unwrap_or("")).unwrap_or_default();
+    let a = u(&meta["forked"]["client"]);
+    let latest = u(&meta["forked"]["latest"]);
+    let raw = crate::sut::dump_sql_raw(&dir);
+    for v in meta["forked"]["versions"].as_array().cloned().unwrap_or_default().iter().chain(meta["ordinary"]["chain"].as_array().cloned().unwrap_or_default().iter()) {
+        let (id, parent, data) = (u(&v[0]), u(&v[1]), v[2].as_str().unwrap_or("").as_bytes().to_vec());
+        if !raw.versions.iter().any(|r| r.1 == id && r.2 == parent && r.3 == data) {
+            findings.push(("raw|content-differs".into(), format!("{name}: version {id} (parent {parent}) of the directory is gone or changed after opening it with the current code")));
+        }
+    }
+    use crate::sut::{Req, Resp};
+    match sut.call(&Req::GetChild { c: a, parent: Uuid::nil() }) {
+        Resp::GcFound { id, data, .. } if meta["forked"]["versions"].as_array().unwrap().iter().any(|v| u(&v[0]) == id && v[2].as_str().unwrap_or("").as_bytes() == data.as_slice()) => {}
+        other => findings.push(("raw|not-served".into(), format!("{name}: GetChildVersion(nil) of the client with two first versions answered {:?}", other))),
+    }
+    match sut.call(&Req::AddVersion { c: a, parent: latest, data: b"after-upgrade".to_vec() }) {
+        Resp::AvOk { id, .. } => match sut.call(&Req::GetChild { c: a, parent: latest }) {
+            Resp::GcFound { id: i2, data, .. } if i2 == id && data == b"after-upgrade" => {}
+            other => findings.push(("raw|not-served".into(), format!("{name}: the version appended after the upgrade reads back as {:?}", other))),
+        },
+        other => findings.push(("raw|not-served".into(), format!("{name}: AddVersion on the latest version of the legacy client answered {:?}", other))),
+    }
+    // the ordinary client: walk and snapshot
+    let b = u(&meta["ordinary"]["client"]);
+    let mut cur = Uuid::nil();
+    for v in meta["ordinary"]["chain"].as_array().cloned().unwrap_or_default() {
+        match sut.call(&Req::GetChild { c: b, parent: cur }) {
+            Resp::GcFound { id, data, .. } if id == u(&v[0]) && data == v[2].as_str().unwrap_or("").as_bytes() => cur = id,
+            other => {
+                findings.push(("raw|content-differs".into(), format!("{name}: walking the ordinary client's chain at {cur} answered {:?}", other)));
+                break;
+            }
+        }
+    }
+    match sut.call(&Req::GetSnapshot { c: b }) {
+        Resp::GsFound { id, data } if id == u(&meta["ordinary"]["snapshot"][0]) && data == meta["ordinary"]["snapshot"][1].as_str().unwrap_or("").as_bytes() => {}
+        other => findings.push(("raw|content-differs".into(), format!("{name}: GetSnapshot of the ordinary client answered {:?}", other))),
+    }
+    findings
+}
+
 /// Check one fixture with the current code. Returns (findings, requests/transitions done).
 pub fn check_fixture(dir: &Path, depth: usize) -> (Vec<(String, String)>, u64, u64) {
     let mut findings = vec![];
@@ -265,6 +377,9 @@ pub fn check_fixture(dir: &Path, depth: usize) -> (Vec<(String, String)>, u64, u
     }
     let seed = meta["seed"].as_u64().unwrap_or(1);
     let name = dir.file_name().unwrap().to_string_lossy().to_string();
+    if meta["kind"] == "legacy-fork" {
+        return (check_legacy_fork(&name, &meta, &files), 1, 8);
+    }
     if meta["kind"] == "seq" {
         let cfg = Config { days: meta["days"].as_i64().unwrap_or(2), versions: meta["versions"].as_u64().unwrap_or(2) as u32 };
         let hist: Vec<AOp> = meta["history"].as_array().unwrap().iter().filter_map(|x| AOp::parse(x.as_str().unwrap())).collect();
